@@ -70,8 +70,27 @@ def replay_case(case, tag, rng, tier):
                 call(hash, x_)                      # hashed / compared under the default tolerance
                 call(lambda: x_ == x_)
                 pre[n_ + 1] = x_
-        apply_calls(calls)
         eps = cfg["mant"] * 10.0 ** (-cfg["exp"])
+        cmps = case["cmp"]
+        chosen = rng.sample(cmps, min(len(cmps), 18 if tier == "quick" else 40))
+        # a third of the comparisons use a PAIR (original, perturbed twin) that was built, hashed and put into a set under the default
+        # tolerance, i.e. before the setters ran: whatever the objects or the containers inside them froze then must not matter
+        pre_pairs = {}
+        for ci, c in enumerate(chosen):
+            o = case["objs"][c["obj"] - 1]
+            if o["k"] == "Vector" or rng.random() > 0.34:
+                continue
+            delta = {"Tiny": eps / 1000.0, "Small": eps / 100.0, "Big": 4.0 * eps}[c["delta"]]
+            a0, ea0 = call(build, o, pose, "float")
+            geom.PERTURB = {tuple(case["defs"][c["obj"] - 1][c["pt"] - 1]): (c["axis"] - 1, delta)}
+            try:
+                b0, eb0 = call(build, o, pose, "float")
+            finally:
+                geom.PERTURB = {}
+            if ea0 is None and eb0 is None:
+                call(lambda: {a0, b0})
+                pre_pairs[ci] = (a0, b0)
+        apply_calls(calls)
         ge, gs = G.get_eps(), G.get_sig_figures()
         out["calls"] += 2
         if not (abs(ge - eps) <= 1e-9 * eps) or gs != cfg["sig"]:
@@ -79,8 +98,7 @@ def replay_case(case, tag, rng, tier):
                 {"op": "config", "last": calls[-1]["f"]})
         if gs != round(-math.log10(ge)):
             bad("C19.config_coherent", "get_sig_figures() != round(-log10(get_eps()))", {"op": "config", "last": calls[-1]["f"]})
-        cmps = case["cmp"]
-        for c in rng.sample(cmps, min(len(cmps), 18 if tier == "quick" else 40)):
+        for ci, c in enumerate(chosen):
             o = case["objs"][c["obj"] - 1]
             delta = {"Tiny": eps / 1000.0, "Small": eps / 100.0, "Big": 4.0 * eps}[c["delta"]]
             ax = c["axis"] - 1
@@ -102,7 +120,10 @@ def replay_case(case, tag, rng, tier):
                     bad("C19.construct", "an object perturbed by %s (%.1e) could not be constructed: %s" % (c["delta"], delta, eb["cls"]),
                         dict(sig, what="construct"), [o])
                 continue
-            if rng.random() < 0.5 and c["obj"] in pre:
+            if ci in pre_pairs:
+                a, b = pre_pairs[ci]                # both existed (and were hashed) before the setters were called
+                sig["pre_built"] = "pair"
+            elif rng.random() < 0.5 and c["obj"] in pre:
                 a = pre[c["obj"]]                   # the object that already existed before the setters were called
                 sig["pre_built"] = True
             val, exc = call(lambda: a == b)
